@@ -7,7 +7,9 @@
        Session identities compare unequal exactly when they are not equal:
          a == b  <->  s1 = s2 /\ t1 = t2;     a != b  <->  not (a == b);     a == a;   not (a != a);
        the mirror tests used on inbound messages: same_sender_comp_id(target2) <-> target2 = s1,
-       same_target_comp_id(sender2) <-> sender2 = t1; the same-side tests likewise.
+       same_target_comp_id(sender2) <-> sender2 = t1; the same-side tests likewise.  Identity is the PAIR of
+       CompIDs: the printable ids reported at the end of the line play no role (they may coincide for different
+       identities, e.g. (A->B, C) and (A, B->C)).
    (2) a session history (harness h_sess).  For every inbound Logon that is the first message of its IN step,
        S = its SenderCompID, T = its TargetCompID, h = HeartBtInt, r = ResetSeqNumFlag is Y, n = its MsgSeqNum:
        acceptor waiting for the logon (state 3), own CompID X, enforcement flag ec, client list L:
@@ -30,8 +32,8 @@ Import ListNotations.
 Local Open Scope N_scope.
 
 (* ---- (1) identities ------------------------------------------------------------------------------------ *)
-Definition sid_case_ok (a b : sid) (r : bool * bool * bool * bool * (bool * bool) * (bool * bool)) : bool :=
-  let '(eq, ne, seq, sne, (m1, m2), (d1, d2)) := r in
+Definition sid_case_ok (a b : sid) (r : bool * bool * bool * bool * (bool * bool) * (bool * bool) * (bytes * bytes)) : bool :=
+  let '(eq, ne, seq, sne, (m1, m2), (d1, d2), _) := r in
   let equal := beq (sid_snd a) (sid_snd b) && beq (sid_tgt a) (sid_tgt b) in
   Bool.eqb eq equal && Bool.eqb ne (negb equal) && seq && negb sne &&
   Bool.eqb m1 (beq (sid_tgt b) (sid_snd a)) && Bool.eqb m2 (beq (sid_snd b) (sid_tgt a)) &&
